@@ -922,7 +922,7 @@ def adapt_typehints(
     # Dict, Mapping
     elif typehint_origin in mapping_origin_types:
         if isinstance(val, NestedArg):
-            if isinstance(prev_val, dict):
+            if isinstance(prev_val, (dict, MappingProxyType)):
                 val = {**prev_val, val.key: val.val}
             else:
                 val = {val.key: val.val}
